@@ -601,4 +601,109 @@ theorem fullCtl_textBlindR (cfg : Cfg) : TextBlindR (fullCtl cfg) (FullE cfg) wh
     rw [e2, e3]; exact h
   handleEnd := fun g g' h => by obtain ⟨rfl, hd⟩ := h; exact ⟨rfl, rfl, handleEnd_dom hd⟩
 
+/-! ### configurations without text handlers -/
+
+/-- no `text!` / `doc_text!` handler is registered -/
+def noText (cfg : Cfg) : Bool :=
+  cfg.sels.all (fun e => e.2.text.isNone) && cfg.docs.all (fun d => d.text.isNone)
+
+theorem addSel_TF {d : Dispatcher} (h : TF d) (r : SelReg) (hr : r.text = false) :
+    TF (d.addSelectorAssociatedHandlers r) := by
+  unfold Dispatcher.addSelectorAssociatedHandlers
+  simp only [hr, Bool.false_eq_true, if_false]
+  refine ⟨h.1, ?_⟩
+  intro loc hl
+  simp only [List.mem_append, List.mem_singleton] at hl
+  rcases hl with hl | rfl
+  · exact h.2 loc hl
+  · rfl
+
+theorem foldSel_TF : ∀ (rs : List SelReg) (d : Dispatcher), TF d → (∀ r ∈ rs, r.text = false) →
+    TF (rs.foldl Dispatcher.addSelectorAssociatedHandlers d) := by
+  intro rs
+  induction rs with
+  | nil => intro d h _; exact h
+  | cons r rs ih =>
+    intro d h hr
+    simp only [List.foldl_cons]
+    exact ih _ (addSel_TF h r (hr r (List.mem_cons_self ..))) (fun x hx => hr x (List.mem_cons_of_mem _ hx))
+
+theorem addDoc_tl (d : Dispatcher) (id : HId) (r : DocReg) (hr : r.text = false) :
+    tl (d.addDocumentContentHandlers id r) = tl d := by
+  unfold Dispatcher.addDocumentContentHandlers
+  simp only [hr, Bool.false_eq_true, if_false]
+  cases r.doctype <;> cases r.comments <;> cases r.end_ <;> rfl
+
+theorem addDocs_TF : ∀ (rs : List DocReg) (d : Dispatcher) (base : Nat), TF d → (∀ r ∈ rs, r.text = false) →
+    TF (d.addDocs base rs) := by
+  intro rs
+  induction rs with
+  | nil => intro d _ h _; exact h
+  | cons r rs ih =>
+    intro d base h hr
+    simp only [Dispatcher.addDocs]
+    exact ih _ _ (h.of_tl (addDoc_tl d base r (hr r (List.mem_cons_self ..)))) (fun x hx => hr x (List.mem_cons_of_mem _ hx))
+
+/-- the initial state of a rewriter without text handlers is in the domain of the instance -/
+theorem init_dom (cfg : Cfg) (h : noText cfg = true) : Dom (FullSt.init cfg).1 := by
+  unfold noText at h
+  simp only [Bool.and_eq_true, List.all_eq_true] at h
+  refine ⟨?_, fun e he => by cases he⟩
+  show TF (Dispatcher.fromSettings cfg.selRegs cfg.docRegs)
+  unfold Dispatcher.fromSettings
+  refine addDocs_TF _ _ _ (foldSel_TF _ _ ⟨rfl, fun _ hl => by cases hl⟩ ?_) ?_
+  · intro r hr
+    unfold Cfg.selRegs at hr
+    obtain ⟨e, he, rfl⟩ := List.mem_map.1 hr
+    have := h.1 e he
+    unfold SelHandlers.reg
+    simp only
+    cases ht : e.2.text with
+    | none => rfl
+    | some x => rw [ht] at this; cases this
+  · intro r hr
+    unfold Cfg.docRegs at hr
+    obtain ⟨e, he, rfl⟩ := List.mem_map.1 hr
+    have := h.2 e he
+    unfold DocHandlers.reg
+    simp only
+    cases ht : e.text with
+    | none => rfl
+    | some x => rw [ht] at this; cases this
+
+theorem init_E (cfg : Cfg) (h : noText cfg = true) : FullE cfg (FullSt.init cfg) (FullSt.init cfg) := ⟨rfl, init_dom cfg h⟩
+
+theorem foldSel_removed : ∀ (rs : List SelReg) (d : Dispatcher),
+    (rs.foldl Dispatcher.addSelectorAssociatedHandlers d).removedContent = d.removedContent := by
+  intro rs
+  induction rs with
+  | nil => intro d; rfl
+  | cons r rs ih =>
+    intro d
+    simp only [List.foldl_cons]
+    rw [ih]
+    unfold Dispatcher.addSelectorAssociatedHandlers
+    cases r.element <;> cases r.comments <;> cases r.text <;> rfl
+
+theorem addDocs_removed : ∀ (rs : List DocReg) (d : Dispatcher) (base : Nat),
+    (d.addDocs base rs).removedContent = d.removedContent := by
+  intro rs
+  induction rs with
+  | nil => intro d _; rfl
+  | cons r rs ih =>
+    intro d base
+    simp only [Dispatcher.addDocs]
+    rw [ih]
+    unfold Dispatcher.addDocumentContentHandlers
+    cases r.doctype <;> cases r.comments <;> cases r.text <;> cases r.end_ <;> rfl
+
+/-- a fresh rewriter emits content -/
+theorem init_shouldEmit (cfg : Cfg) : (fullCtl cfg).shouldEmit (FullSt.init cfg) = true := by
+  show shouldEmit (St.init cfg) = true
+  rw [shouldEmit_iff]
+  show (Dispatcher.fromSettings cfg.selRegs cfg.docRegs).removedContent = 0
+  unfold Dispatcher.fromSettings
+  rw [addDocs_removed, foldSel_removed]
+  rfl
+
 end LolHtml.Model.Chunk.R
